@@ -299,6 +299,13 @@ DIRECTED = [
     {"nodes": {"a.py": ("text", b"x = 1\n"), "subprojects/p/a.py": ("text", b"x = 1\n"), "d/subprojects/q/b.py": ("text", b"x = 1\n"), "d/LICENSES/MIT.txt": ("text", b"hello\n"),
                "d/.reuse/dep5": ("text", b"hello\n"), "LICENSES/MIT.txt": ("text", b"hello\n"), "d/x.license": ("text", b"hello\n"), "d/COPYING.md": ("text", b"hello\n")},
      "git": None},
+    # names on both sides of the rules: directories named like excluded FILES (their contents are covered), files and directories whose names
+    # merely start like an ignored directory's, an ignored file pattern next to look-alikes
+    {"nodes": {"COPYING.d/a.txt": ("text", b"hello\n"), "src/LICENSE/notes.py": ("text", b"x = 1\n"), "export.spdx/data.txt": ("text", b"hello\n"), "x.license/y.py": ("text", b"x = 1\n"),
+               "build/gen.py": ("text", b"x = 1\n"), "build.py": ("text", b"x = 1\n"), "build-tools/t.py": ("text", b"x = 1\n"), "buildx": ("text", b"hello\n"),
+               "var/cache/c.bin": ("binary", b"\x00\x01\x02\xff\xfebin\x00"), "var/cache_key.py": ("text", b"x = 1\n"), "docs/node_modules.md": ("text", b"hello\n"),
+               "node_modules/m/i.js": ("text", b"x = 1\n"), "tmp.log": ("text", b"hello\n"), "tmp.logs": ("text", b"hello\n"), "README.md": ("text", b"hello\n")},
+     "git": {"ignore": {"": ["build/", "/var/cache", "node_modules/", "*.log"]}, "tracked": ["README.md"], "forced": [], "submodules": [], "exclude": []}},
 ]
 
 
